@@ -48,6 +48,9 @@ func (w *verifC22World) spec(i int) Spec {
 
 func (w *verifC22World) get(ctx sdk.Context, index string) (Spec, bool) {
 	w.lookup++
+	if w.lookup > 16 {
+		panic("verif: expansion keeps importing (more spec lookups than any loop-free walk of three specs needs)")
+	}
 	for i, n := range verifC22Names {
 		if n == index {
 			return w.spec(i), true
